@@ -346,7 +346,7 @@ def strip_ws(s):
 
 
 GETTER = re.compile(r"pubfn(\w+?)\(&self\)->([^{]+)\{(?:unsafe\{)?(?:::std::mem::transmute\()?self\.(_bitfield_(\d+))"
-                    r"(?:\.as_ref\(\))?\.(?:get_const::<(\d+)usize,(\d+)u8,?>\(\)|get\((\d+)usize,(\d+)u8,?\))as(\w+)")
+                    r"(?:\.as_ref\(\)\}?)?\.(?:get_const::<(\d+)usize,(\d+)u8,?>\(\)|get\((\d+)usize,(\d+)u8,?\))as(\w+)")
 UNITFIELD = re.compile(r"pub_bitfield_(\d+):(?:root::)?(?:__BindgenUnionField<)?__BindgenBitfieldUnit<\[u8;(\d+)usize\]>")
 CTOR = re.compile(r"pubfnnew_bitfield_(\d+)\(([^)]*)\)->")
 
